@@ -60,6 +60,8 @@ type c06cfg struct {
 	keys    int
 	// prepopulate: the concurrent phase runs on a fresh handle over an existing database
 	prepopulate bool
+	// pinLatest: the export is opened on the version that is the latest one at that moment
+	pinLatest bool
 }
 
 func (c c06cfg) String() string {
@@ -505,7 +507,7 @@ func runConcurrent(c *fw.Ctx, cfg c06cfg) {
 	wg.Wait()
 	// bounded progress of background pruning: the first version must reach the target
 	if cfg.async && pruneTarget > 0 && len(w.viol) == 0 {
-		deadline := time.Now().Add(20 * time.Second)
+		deadline := time.Now().Add(90 * time.Second)
 		reached := false
 		for time.Now().Before(deadline) {
 			if av := t.AvailableVersions(); len(av) > 0 && int64(av[0]) > pruneTarget {
@@ -515,7 +517,7 @@ func runConcurrent(c *fw.Ctx, cfg c06cfg) {
 			time.Sleep(20 * time.Millisecond)
 		}
 		if !reached {
-			c.Res.Inconcl = fmt.Sprintf("background pruning did not reach version %d within 20s after the writer stopped", pruneTarget)
+			c.Res.Inconcl = fmt.Sprintf("background pruning did not reach version %d within 90s after the writer stopped", pruneTarget)
 		} else {
 			w.count("async_prune_drained", 1)
 		}
@@ -594,7 +596,7 @@ func checkVisibility(c *fw.Ctx, w *c06world) {
 		},
 		DescribeOperation: func(in, out interface{}) string { return fmt.Sprintf("%v -> %v", in, out) },
 	}
-	res, _ := porcupine.CheckOperationsVerbose(m, ops, 20*time.Second)
+	res, _ := porcupine.CheckOperationsVerbose(m, ops, 60*time.Second)
 	c.Obs("visibility_ops_checked", len(ops))
 	switch res {
 	case porcupine.Illegal:
@@ -615,7 +617,7 @@ func runHookMatrix(c *fw.Ctx, point string, cfg c06cfg) {
 		c.Violate(0, "exec|open|error", "%v", err)
 		return
 	}
-	defer t.Close()
+	defer func() { t.Close() }()
 	w := &c06world{snaps: map[int64]model.Snap{}, hashes: map[int64][]byte{}, inUse: map[int64]int{}, obs: map[string]int{}}
 	M := model.New(0)
 	rng := c.Rng
@@ -642,15 +644,19 @@ func runHookMatrix(c *fw.Ctx, point string, cfg c06cfg) {
 		return true
 	}
 	vc := 0
+	var lastKeys [][]byte // keys changed by the most recent write() call
 	write := func(n int) {
+		lastKeys = lastKeys[:0]
 		for i := 0; i < n; i++ {
 			k := []byte(fmt.Sprintf("k%03d", rng.Intn(cfg.keys)))
 			if rng.Intn(3) == 0 && len(M.Work) > 0 {
 				ks := M.Work.Keys()
 				k = []byte(ks[rng.Intn(len(ks))])
+				lastKeys = append(lastKeys, k)
 				t.Remove(k)
 				M.Remove(string(k))
 			} else {
+				lastKeys = append(lastKeys, k)
 				vc++
 				t.Set(k, []byte(fmt.Sprintf("v%d", vc)))
 				M.Set(string(k), fmt.Sprintf("v%d", vc))
@@ -664,6 +670,16 @@ func runHookMatrix(c *fw.Ctx, point string, cfg c06cfg) {
 		}
 	}
 	for round := 0; round < cfg.rounds; round++ {
+		if strings.HasPrefix(point, "save:") && round%2 == 1 {
+			// every second commit round runs on a freshly opened handle: cold node and fast-node caches
+			t.Close()
+			t = iavl.NewMutableTree(store, cfg.cache, !cfg.fast, iavl.NewNopLogger())
+			if _, err := t.Load(); err != nil {
+				c.Violate(0, "conc|hook|reopen", "%v", err)
+				return
+			}
+			c.Obs("hook_rounds_on_cold_handle", 1)
+		}
 		// the writer performs one protocol step in its own goroutine and parks at the hook
 		done := make(chan struct{})
 		armed.Store(true)
@@ -708,17 +724,48 @@ func runHookMatrix(c *fw.Ctx, point string, cfg c06cfg) {
 			w.mu.Lock()
 			pub := append([]int64(nil), w.published...)
 			w.mu.Unlock()
+			changed := append([][]byte(nil), lastKeys...)
 			for _, v := range pub {
 				readBattery(w, t, v, w.snaps[v], w.hashes[v], rng, "parked@"+point, true)
+				// the keys the parked writer is changing, read in the committed versions
+				if it, err := t.GetImmutable(v); err == nil {
+					for _, k := range changed {
+						got, err := it.Get(k)
+						wv, present := w.snaps[v][string(k)]
+						if err != nil || (got != nil) != present || (present && string(got) != wv) {
+							w.bad("conc|hook|changed-key-while-parked", "writer parked at %s: version %d Get(%q)=(%q,%v), committed contents say %q (present=%v)", point, v, k, got, err, wv, present)
+						}
+					}
+				}
 			}
 			c.Obs("hook_overlaps_"+point, 1)
 			release <- struct{}{}
 			<-done
+			// quiescent: the version just committed and its predecessors read exactly, in particular
+			// the keys that were read while their change was pending
+			w.mu.Lock()
+			pub = append([]int64(nil), w.published...)
+			w.mu.Unlock()
+			for i := len(pub) - 1; i >= 0 && i >= len(pub)-2; i-- {
+				v := pub[i]
+				it, err := t.GetImmutable(v)
+				if err != nil {
+					continue
+				}
+				for _, k := range changed {
+					got, err := it.Get(k)
+					wv, present := w.snaps[v][string(k)]
+					if err != nil || (got != nil) != present || (present && string(got) != wv) {
+						w.bad("conc|hook|stale-after-overlap", "after readers overlapped the writer parked at %s: version %d Get(%q)=(%q,%v), committed contents say %q (present=%v)", point, v, k, got, err, wv, present)
+					}
+				}
+				readBattery(w, t, v, w.snaps[v], w.hashes[v], rng, "after-hook", true)
+			}
 		case <-done:
 			armed.Store(false)
 			c.Obs("hook_not_reached_"+point, 1)
-		case <-time.After(20 * time.Second):
-			c.Res.Inconcl = "writer neither parked nor finished within 20s"
+		case <-time.After(90 * time.Second):
+			c.Res.Inconcl = "writer neither parked nor finished within 90s"
 			return
 		}
 		if strings.HasPrefix(point, "prune:") {
@@ -760,6 +807,9 @@ func runExportPin(c *fw.Ctx, cfg c06cfg) {
 		R.Commit()
 	}
 	pin := int64(1 + rng.Intn(3))
+	if cfg.pinLatest {
+		pin = 6
+	}
 	it, err := t.GetImmutable(pin)
 	if err != nil {
 		c.Violate(0, "conc|pin|getimmutable", "%v", err)
@@ -769,6 +819,22 @@ func runExportPin(c *fw.Ctx, cfg c06cfg) {
 	if err != nil {
 		c.Violate(0, "conc|pin|export", "%v", err)
 		return
+	}
+	if cfg.pinLatest {
+		// the exported version was the latest one when the export began; the writer moves on
+		for v := 0; v < 2; v++ {
+			for i := 0; i < 5; i++ {
+				k, val := []byte(fmt.Sprintf("k%03d", rng.Intn(cfg.keys))), []byte(fmt.Sprintf("w%d.%d", v, i))
+				t.Set(k, val)
+				R.Set(k, val)
+			}
+			if _, _, err := t.SaveVersion(); err != nil {
+				c.Violate(0, "conc|pin|save-error", "%v", err)
+				return
+			}
+			R.Commit()
+		}
+		c.Obs("export_pins_of_the_then_latest_version", 1)
 	}
 	// a second export of the same version, closed twice, must not release the pin
 	if it2, err := t.GetImmutable(pin); err == nil {
@@ -788,7 +854,7 @@ func runExportPin(c *fw.Ctx, cfg c06cfg) {
 	}()
 	wg.Wait()
 	if delErr == nil {
-		c.Violate(0, "conc|pin|deleted-while-exporting", "DeleteVersionsTo(%d) succeeded while an Exporter on version %d is open {%s}", target, pin, cfg)
+		c.Violate(0, "conc|pin|deleted-while-exporting", "DeleteVersionsTo(%d) succeeded while an Exporter on version %d is open (opened while it was the latest version: %v) {%s}", target, pin, cfg.pinLatest, cfg)
 	}
 	// the export is complete and correct
 	want := ref.Export(R.Roots[pin])
@@ -866,7 +932,7 @@ func runSeamPause(c *fw.Ctx, cfg c06cfg) {
 		c.Violate(0, "conc|pause|load", "%v", err)
 		return
 	}
-	defer t.Close()
+	defer func() { t.Close() }()
 	for round := 0; round < cfg.rounds && len(w.viol) == 0; round++ {
 		latest := w.published[len(w.published)-1]
 		snap := w.snaps[latest]
@@ -875,6 +941,77 @@ func runSeamPause(c *fw.Ctx, cfg c06cfg) {
 			break
 		}
 		k := []byte(keys[rng.Intn(len(keys))])
+		if round%3 == 2 {
+			// "between" schedule, on a freshly opened handle (cold caches): the writer has changed k
+			// but not committed yet; a reader of the latest committed version reads k; the writer
+			// commits; afterwards every version must read exactly.
+			t.Close()
+			t = iavl.NewMutableTree(ps, cfg.cache, !cfg.fast, iavl.NewNopLogger())
+			if _, err := t.Load(); err != nil {
+				w.bad("conc|between|load", "%v", err)
+				break
+			}
+			remove := rng.Intn(2) == 0
+			if remove {
+				t.Remove(k)
+				M.Remove(string(k))
+			} else {
+				vc++
+				t.Set(k, []byte(fmt.Sprintf("b%d", vc)))
+				M.Set(string(k), fmt.Sprintf("b%d", vc))
+			}
+			type bres struct {
+				val []byte
+				has bool
+				err error
+			}
+			bdone := make(chan bres, 1)
+			go func() {
+				it, err := t.GetImmutable(latest)
+				if err != nil {
+					bdone <- bres{err: err}
+					return
+				}
+				v, err := it.Get(k)
+				if err != nil {
+					bdone <- bres{err: err}
+					return
+				}
+				has, err := it.Has(k)
+				bdone <- bres{v, has, err}
+			}()
+			br := <-bdone
+			if br.err != nil || string(br.val) != snap[string(k)] || !br.has {
+				w.bad("conc|between|reader-result", "reader of version %d between the writer's uncommitted change of %q and its commit returned (%q,has=%v,%v), committed contents say %q", latest, k, br.val, br.has, br.err, snap[string(k)])
+			}
+			h, ver, err := t.SaveVersion()
+			if err != nil {
+				w.bad("conc|between|save-error", "%v", err)
+				break
+			}
+			M.Commit()
+			w.mu.Lock()
+			w.snaps[ver], w.hashes[ver] = M.Vers[ver], h
+			w.published = append(w.published, ver)
+			pub := append([]int64(nil), w.published...)
+			w.mu.Unlock()
+			for i := len(pub) - 1; i >= 0 && i >= len(pub)-3; i-- {
+				v := pub[i]
+				it, err := t.GetImmutable(v)
+				if err != nil {
+					w.bad("conc|between|getimmutable", "%v", err)
+					continue
+				}
+				got, err := it.Get(k)
+				wv, present := w.snaps[v][string(k)]
+				if err != nil || (got != nil) != present || (present && string(got) != wv) {
+					w.bad("conc|between|stale-after-overlap", "a reader of version %d read %q on a cold handle between the writer's uncommitted change (remove=%v) and the commit of version %d; afterwards version %d Get(%q)=(%q,%v), committed contents say %q (present=%v)", latest, k, remove, ver, v, k, got, err, wv, present)
+				}
+				readBattery(w, t, v, w.snaps[v], w.hashes[v], rng, "after-between", true)
+			}
+			w.count("between_overlaps", 1)
+			continue
+		}
 		space := int32('s')
 		if cfg.fast && round%2 == 0 {
 			space = 'f'
@@ -976,7 +1113,7 @@ func runSeamPause(c *fw.Ctx, cfg c06cfg) {
 	}
 }
 
-var c06Points = []string{"save:after-commit", "prune:version-deleted", "prune:after-committing-check", "clone:children-fetched"}
+var c06Points = []string{"save:after-commit", "save:before-commit", "prune:version-deleted", "prune:after-committing-check", "clone:children-fetched"}
 
 func c06Config(i int, tier string) (kind string, cfg c06cfg, point string) {
 	matrix := []c06cfg{
@@ -991,7 +1128,7 @@ func c06Config(i int, tier string) (kind string, cfg c06cfg, point string) {
 	}
 	reps := 4
 	if tier == "thorough" {
-		reps = 30
+		reps = 100
 	}
 	nStress := len(matrix) * reps
 	switch {
@@ -1014,16 +1151,39 @@ func c06Config(i int, tier string) (kind string, cfg c06cfg, point string) {
 		return "hook", cfg, c06Points[(j/4)%len(c06Points)]
 	case i < nStress+len(c06Points)*4+8:
 		j := i - nStress - len(c06Points)*4
-		return "pin", c06cfg{cache: []int{0, 1000}[j%2], fast: j%4 < 2, backend: "memdb", keys: 12}, ""
-	default:
+		return "pin", c06cfg{cache: []int{0, 1000}[j%2], fast: j%4 < 2, backend: "memdb", keys: 12, pinLatest: j >= 4}, ""
+	case i < nStress+len(c06Points)*4+16:
 		j := i - nStress - len(c06Points)*4 - 8
 		cfg = c06cfg{cache: []int{0, 1000}[j%2], fast: j%4 < 3, backend: "memdb", keys: 6, rounds: 10}
 		if tier == "thorough" {
 			cfg.rounds = 60
 		}
 		return "pause", cfg, ""
+	default:
+		return "canary", c06cfg{backend: "none"}, ""
 	}
 }
+
+// raceCanary commits a deliberate, harmless data race inside the harness (two unsynchronised writes
+// of one variable). It exists to show on every run that the whole reporting path works: race build,
+// GORACE log_path, log collection in the parent, block parsing. A run in which the canary is not
+// reported is inconclusive.
+var raceCanaryCell int
+
+func raceCanary() {
+	var wg sync.WaitGroup
+	for g := 0; g < 2; g++ {
+		wg.Add(1)
+		go func(g int) {
+			defer wg.Done()
+			raceCanaryWrite(g)
+		}(g)
+	}
+	wg.Wait()
+}
+
+//go:noinline
+func raceCanaryWrite(g int) { raceCanaryCell = g }
 
 var raceBlock = regexp.MustCompile(`(?s)WARNING: DATA RACE\n(.*?)\n==================`)
 
@@ -1057,6 +1217,10 @@ func postRaceLogs(p *fw.ParentCtx) {
 					}
 				}
 			}
+			if strings.Contains(rep, "raceCanaryWrite") {
+				p.Obs["race_canary_reports"]++
+				continue
+			}
 			if iavlStacks < 2 {
 				p.Obs["race_reports_outside_iavl"]++
 				continue
@@ -1074,7 +1238,7 @@ func postRaceLogs(p *fw.ParentCtx) {
 	}
 	p.Obs["race_report_blocks"] = total
 	p.Obs["race_logs_scanned"] = len(files)
-	p.Extra["race_detector"] = "built with -race; GORACE=halt_on_error=0 log_path=<work>/race; reports deduplicated by the pair of first iavl frames"
+	p.Extra["race_detector"] = "built with -race; GORACE=halt_on_error=0 exitcode=0 log_path=<work>/race; reports deduplicated by the pair of first iavl frames"
 }
 
 func init() {
@@ -1085,17 +1249,18 @@ func init() {
 		Cases: func(tier string) int {
 			reps := 4
 			if tier == "thorough" {
-				reps = 30
+				reps = 100
 			}
-			return 8*reps + len(c06Points)*4 + 8 + 8
+			return 8*reps + len(c06Points)*4 + 8 + 8 + 1
 		},
 		CaseTimeout: 240e9,
-		Rule: "built with the Go race detector. Case kinds: (stress) 8 configurations {node cache 0/3/100/10000} x {fast index on/off} x {sync pruning, background pruning with the SetCommitting/UnsetCommitting protocol} x {MemDB, MemDB with unsynchronised yields around storage calls, GoLevelDB} x readers in {2,8,16}, repeated 4x (quick) / 30x (thorough): one writer (Set/Remove/SaveVersion/DeleteVersionsTo of versions nobody reads) and N readers that obtain committed versions with GetImmutable and run Get, GetWithIndex, Has, Iterator, IterateRange, GetProof (verified against the commit hash), Export, Hash, GetByIndex - every result compared with the snapshot published at commit; 2 scout goroutines open arbitrary version numbers and the commit/prune/open history is checked with porcupine against the per-version model uncommitted->committed->deleted; background pruning must reach its target within a bound after the writer stops (otherwise inconclusive). " +
-			"(hook) oracle mode: the writer is parked at a verif yield point (in SaveVersion after the batch commit, before SaveVersion returns; between per-version steps of DeleteVersionsTo; between the committing check and the lock in pruning; in Node.clone) and every reader operation type runs on every published version while it is parked - hook points x reader operations is enumerated. (pause) a reader of the latest version is parked INSIDE its storage read (fast-index entry or node, via a pausing storage wrapper on a freshly opened handle with cold caches) while the writer commits a change of the same key; the reader must return its version's value and afterwards every version must read exactly. (pin) a version with an open Exporter (plus a second, double-closed export of it) cannot be deleted from another goroutine, its stream is R's complete post-order stream, and the deletion succeeds after Close. " +
-			"All race-detector reports of all workers are collected from the race logs, deduplicated by the pair of first iavl frames and reported if both accesses are in iavl. distinct = hash(kind, configuration, repetition); non-trivial = >=20 commits overlapped by >=100 reader operations, or a parked overlap, or a pin check.",
+		Rule: "built with the Go race detector. Case kinds: (stress) 8 configurations {node cache 0/3/100/10000} x {fast index on/off} x {sync pruning, background pruning with the SetCommitting/UnsetCommitting protocol} x {MemDB, MemDB with unsynchronised yields around storage calls, GoLevelDB} x readers in {2,8,16}, repeated 4x (quick) / 100x (thorough): one writer (Set/Remove/SaveVersion/DeleteVersionsTo of versions nobody reads) and N readers that obtain committed versions with GetImmutable and run Get, GetWithIndex, Has, Iterator, IterateRange, GetProof (verified against the commit hash), Export, Hash, GetByIndex - every result compared with the snapshot published at commit; 2 scout goroutines open arbitrary version numbers and the commit/prune/open history is checked with porcupine against the per-version model uncommitted->committed->deleted; background pruning must reach its target within a bound after the writer stops (otherwise inconclusive). " +
+			"(hook) oracle mode: the writer is parked at a verif yield point (in SaveVersion when everything is queued and nothing written; in SaveVersion after the batch commit, before SaveVersion returns; between per-version steps of DeleteVersionsTo; between the committing check and the lock in pruning; in Node.clone) and every reader operation type runs on every published version while it is parked - hook points x reader operations is enumerated. (pause) a reader of the latest version is parked INSIDE its storage read (fast-index entry or node, via a pausing storage wrapper on a freshly opened handle with cold caches) while the writer commits a change of the same key; the reader must return its version's value and afterwards every version must read exactly; every third round uses the \"between\" schedule on a freshly opened handle instead: writer changes k (uncommitted), a reader goroutine reads k in the latest committed version, writer commits, every version must read exactly. (pin) a version with an open Exporter (plus a second, double-closed export of it; half of the cases open the export while the version is still the latest one and commit two more versions) cannot be deleted from another goroutine, its stream is R's complete post-order stream, and the deletion succeeds after Close. " +
+			"(canary) one case commits a deliberate unsynchronised write pair inside the harness; its report must appear in the collected logs, otherwise the run is inconclusive. All race-detector reports of all workers are collected from the race logs, deduplicated by the pair of first iavl frames and reported if both accesses are in iavl. distinct = hash(kind, configuration, repetition); non-trivial = >=20 commits overlapped by >=100 reader operations, or a parked overlap, or a pin check.",
 		Assumptions: []string{"only schedules that happened are judged; race reports are schedule dependent", "the harness' registry (which versions are published / in use) is the monitor's own mutex-guarded state", "readers only read versions the writer has not asked to delete (as the property states)"},
 		WorkerEnv: func(work string, shard int) []string {
-			return []string{"GORACE=halt_on_error=0 log_path=" + filepath.Join(work, "race")}
+			// (exitcode=0: reports are taken from the logs; a worker that saw a race must still deliver its results)
+			return []string{"GORACE=halt_on_error=0 exitcode=0 log_path=" + filepath.Join(work, "race")}
 		},
 		Run: func(c *fw.Ctx) {
 			kind, cfg, point := c06Config(c.Index, c.Tier)
@@ -1115,11 +1280,14 @@ func init() {
 			case "pause":
 				runSeamPause(c, cfg)
 				c.Res.Nontrivial = c.Res.Obs["pause_overlaps"] > 0
+			case "canary":
+				raceCanary()
+				c.Obs("race_canary_runs", 1)
 			}
 		},
 		Post: postRaceLogs,
 		Floor: func(obs map[string]int, evals, nontrivial int) string {
-			for _, k := range []string{"reads_Get", "reads_GetWithIndex", "reads_Has", "reads_Iterator", "reads_IterateRange", "reads_GetProof", "reads_Export", "reads_HashAndGetByIndex", "commits", "prunes", "export_pins_checked", "visibility_histories_linearizable", "hook_overlaps_save:after-commit", "hook_overlaps_prune:version-deleted", "pause_overlaps"} {
+			for _, k := range []string{"reads_Get", "reads_GetWithIndex", "reads_Has", "reads_Iterator", "reads_IterateRange", "reads_GetProof", "reads_Export", "reads_HashAndGetByIndex", "commits", "prunes", "export_pins_checked", "visibility_histories_linearizable", "hook_overlaps_save:after-commit", "hook_overlaps_save:before-commit", "hook_rounds_on_cold_handle", "hook_overlaps_prune:version-deleted", "pause_overlaps", "between_overlaps", "export_pins_of_the_then_latest_version"} {
 				if obs[k] < 4 {
 					return fmt.Sprintf("observation %s=%d below floor", k, obs[k])
 				}
@@ -1131,11 +1299,11 @@ func init() {
 					}
 				}
 			}
-			if obs["race_logs_scanned"] == 0 && obs["race_report_blocks"] == 0 {
-				// no log file at all is fine (no report), but make sure the binary was a race build
-				if !raceEnabled {
-					return "the checker was not built with -race"
-				}
+			if !raceEnabled {
+				return "the checker was not built with -race"
+			}
+			if obs["race_canary_reports"] == 0 {
+				return "the deliberate race of the harness canary was not found in the race logs: the race-report path is not working"
 			}
 			return ""
 		},
